@@ -111,7 +111,15 @@ def handleDecoded (stream : String) (b : Block) (durs : List DurDesc) (lens : Li
             decide (x.start ≤ y.start) && decide (y.stop ≤ x.stop) && decide (y.dur < x.dur)
         | none => false
       | _ => false
-    { agree := mOut == out && extraOk, specOk, nontrivial := okFlat && L ≥ 2,
+    -- when the model's `build` rejects the block, the implementation must reject it too with an applicable kind
+    -- (which of several applicable reasons is reported first is not constrained)
+    let outAgrees : Bool := match mGraph with
+      | .ok _ => mOut == out
+      | .error _ => match out with
+        | .list [.atom "res", .list [.atom "err", .atom k, _], .list [.atom "skip"], .list [.atom "err", .atom "sched"]] =>
+          (errKinds false b).contains k
+        | _ => false
+    { agree := outAgrees && extraOk, specOk, nontrivial := okFlat && L ≥ 2,
       tags := [stream, s!"len{min L 8}"] ++ (durs.map durTag).eraseDups ++
         (if okFlat then ["scheduled"] else ["no-schedule"]) ++ (if okBlock then ["block-ok"] else []) ++
         (if expanded then ["calibrated"] else []) ++ (if lens.any (· ≥ 3) then ["expansion3+"] else []) ++
